@@ -307,16 +307,18 @@ package whispertool
 //@                     && h.archiveInfoList[k].secondsPerPoint fmod 4294967296 == be32(entry(src), 20 + 12 * k)
 //@                     && h.archiveInfoList[k].numberOfPoints == be32(entry(src), 24 + 12 * k)
 
+//@ spec tsFrom(ts *TimeSeries) int = ite(ts == nil, 0, ts.fromTime)
+//@ spec tsUntil(ts *TimeSeries) int = ite(ts == nil, 0, ts.untilTime)
+//@ spec tsStep(ts *TimeSeries) int = ite(ts == nil, 0, ts.step)
 //@ func (*TimeSeries).AppendTo
-//@   props C14
-//@   requires ts != nil
+//@   props C14 C12 C16
 //@   modifies dst[len(dst):cap(dst)]
-//@   ensures length: len(result) == len(dst) + 12 + 8 * len(ts.values)
+//@   ensures length: len(result) == len(dst) + 12 + 8 * tsLen(ts)
 //@   ensures off: result.off == dst.off
-//@   ensures rest: forall j :: j < dst.off + len(dst) || j >= dst.off + len(dst) + 12 + 8 * len(ts.values) ==> at(result, j) == old(at(dst, j))
-//@   ensures enc_hdr: be32(result, len(dst)) == ts.fromTime && be32(result, len(dst) + 4) == ts.untilTime && be32(result, len(dst) + 8) == ts.step fmod 4294967296
-//@   ensures enc_vals: forall i :: 0 <= i && i < len(ts.values) ==> be64(result, len(dst) + 12 + 8 * i) == bits(ts.values[i])
-//@   ensures alias: fresh(result) || result === dst[0:len(dst) + 12 + 8 * len(ts.values)]
+//@   ensures rest: forall j :: j < dst.off + len(dst) || j >= dst.off + len(dst) + 12 + 8 * tsLen(ts) ==> at(result, j) == old(at(dst, j))
+//@   ensures enc_hdr: be32(result, len(dst)) == tsFrom(ts) && be32(result, len(dst) + 4) == tsUntil(ts) && be32(result, len(dst) + 8) == tsStep(ts) fmod 4294967296
+//@   ensures enc_vals: ts != nil ==> forall i :: 0 <= i && i < len(ts.values) ==> be64(result, len(dst) + 12 + 8 * i) == bits(ts.values[i])
+//@   ensures alias: fresh(result) || result === dst[0:len(dst) + 12 + 8 * tsLen(ts)]
 //@ loop (*TimeSeries).AppendTo#0
 //@   invariant bounds: 0 <= i && i <= len(ts.values)
 //@   invariant length: len(dst) == len(entry(dst)) + 12 + 8 * i
@@ -336,7 +338,9 @@ package whispertool
 //@   ensures short_hdr: len(src) < 12 ==> iswl(result1) && wlsize(result1) == 12
 //@   ensures wl_asks_more: iswl(result1) ==> wlsize(result1) > len(src)
 //@   ensures hdr: len(src) >= 12 ==> ts.fromTime == be32(src, 0) && ts.untilTime == be32(src, 4) && ts.step fmod 4294967296 == be32(src, 8)
-//@   ensures badshape: len(src) >= 12 && (be32(src, 8) == 0 || be32(src, 8) >= 2147483648 || be32(src, 4) < be32(src, 0)) ==> result1 != nil && !iswl(result1)
+//@   ensures absent: len(src) >= 12 && be32(src, 0) == 0 && be32(src, 4) == 0 && be32(src, 8) == 0 ==> result1 == nil && len(ts.values) == 0 && result0 === src[12:]
+//@   ensures badshape: len(src) >= 12 && !(be32(src, 0) == 0 && be32(src, 4) == 0 && be32(src, 8) == 0)
+//@                 && (be32(src, 8) == 0 || be32(src, 8) >= 2147483648 || be32(src, 4) < be32(src, 0)) ==> result1 != nil && !iswl(result1)
 //@   ensures short_vals: len(src) >= 12 && 0 < be32(src, 8) && be32(src, 8) < 2147483648 && be32(src, 0) <= be32(src, 4) && len(src) < 12 + 8 * tsCount(src)
 //@                 ==> iswl(result1) && wlsize(result1) == 12 + 8 * tsCount(src)
 //@   ensures ok: len(src) >= 12 && 0 < be32(src, 8) && be32(src, 8) < 2147483648 && be32(src, 0) <= be32(src, 4) && len(src) >= 12 + 8 * tsCount(src)
@@ -564,6 +568,8 @@ package whispertool
 //@                     && result0.untilTime == ite(alignUp(winLo(w, k, from, now), stepOf(w, k)) == alignUp(winHi(until, now), stepOf(w, k)),
 //@                                                alignUp(winHi(until, now), stepOf(w, k)) + stepOf(w, k), alignUp(winHi(until, now), stepOf(w, k)))
 //@                     && len(result0.values) == (result0.untilTime - result0.fromTime) / stepOf(w, k)
+//@   ensures wf: result1 == nil && result0 != nil ==> fresh(result0) && result0.step > 0 && result0.fromTime <= result0.untilTime
+//@                 && len(result0.values) == (result0.untilTime - result0.fromTime) / result0.step
 //@   ensures[C01] never_written: forall k :: !badArgs(w, arhiveID, from, until) && from <= now && chosen(w, arhiveID, k, from, now) && until >= now - retOf(w, k) && result1 == nil
 //@                 && baseOf(w, k) == 0 ==> forall i :: 0 <= i && i < len(result0.values) ==> bits(result0.values[i]) == 9221120237041090561
 //@   ensures[C01] content: forall k :: !badArgs(w, arhiveID, from, until) && from <= now && chosen(w, arhiveID, k, from, now) && until >= now - retOf(w, k) && result1 == nil
@@ -1074,3 +1080,22 @@ package whispertool
 //@                 0 <= tsDiffCntX(ts, ts2, k) && tsDiffCntX(ts, ts2, k) < len(pts)
 //@                 && pts[tsDiffCntX(ts, ts2, k)].Time == tsTime(ts.fromTime, k, ts.step) && bits(pts[tsDiffCntX(ts, ts2, k)].Value) == bits(ts.values[k])
 //@                 && bits(pts2[tsDiffCntX(ts, ts2, k)].Value) == bits(ts2.values[k])
+
+// ---------------------------------------------------------------- layout equality (C08, C09, C10)
+
+//@ spec sameArchive(a ArchiveInfo, b ArchiveInfo) bool = a.secondsPerPoint == b.secondsPerPoint && a.numberOfPoints == b.numberOfPoints
+//@ spec sameLayout(aa ArchiveInfoList, bb ArchiveInfoList) bool = len(aa) == len(bb) && (forall i :: 0 <= i && i < len(aa) ==> sameArchive(aa[i], bb[i]))
+
+//@ func (ArchiveInfoList).Equal
+//@   props C08 C09 C10 C11
+//@   ensures iff: result <==> sameLayout(aa, bb)
+//@ loop (ArchiveInfoList).Equal#0
+//@   invariant bounds: 0 <= iter && iter <= len(aa) && len(aa) == len(bb)
+//@   invariant same: forall i :: 0 <= i && i < iter ==> sameArchive(aa[i], bb[i])
+
+// ---------------------------------------------------------------- text syntax (C19)
+
+//@ func ParseTimestamp
+//@   props C19 C12 C16
+//@   ensures kind: result1 == nil || isother(result1)
+//@   ensures zero: result1 != nil ==> result0 == 0
